@@ -6,7 +6,7 @@ use crate::fsck::{self, FatView};
 use crate::gen::{self, FatPick, VolBias};
 use crate::interp::{self, Case, Divergence, Interp, Opts, StepInfo};
 use crate::mkfs::{FsInfoKind, Layout};
-use crate::ops::{self, Op, Profile, Step};
+use crate::ops::{self, NameSel, Op, Profile, Step};
 use crate::runner::{is_open_known, Acc, Failure, KnownFinding, Tier};
 use crate::simdisk::{Image, Img};
 use proptest::prelude::*;
@@ -20,6 +20,10 @@ pub struct FsxCfg {
     pub multi: bool,
     pub steps: (usize, usize),
     pub all_cfgs: bool,
+    /// one history in five ends in a burst of 17..40 creates of fresh names in one directory (with a
+    /// listing and a lookup in between and at the end), so that a directory grows by a cluster and the
+    /// new cluster is then filled block by block
+    pub bursts: bool,
 }
 
 pub fn cfg_for(prop: &'static str) -> FsxCfg {
@@ -28,6 +32,7 @@ pub fn cfg_for(prop: &'static str) -> FsxCfg {
         profile: Profile::rw(),
         bias: VolBias { full_dirs: true, ..VolBias::default() },
         multi: true,
+        bursts: matches!(prop, "C03" | "C06"),
         steps: (1, 60),
         all_cfgs: false,
     };
@@ -88,7 +93,29 @@ pub fn cfg_for(prop: &'static str) -> FsxCfg {
 }
 
 pub fn strategy(cfg: &FsxCfg) -> BoxedStrategy<Case> {
-    let steps = prop::collection::vec(ops::step_strategy(&cfg.profile), cfg.steps.0..cfg.steps.1);
+    let plain = prop::collection::vec(ops::step_strategy(&cfg.profile), cfg.steps.0..cfg.steps.1);
+    let steps = if cfg.bursts {
+        let burst = (any::<u16>(), 17u8..40, any::<u8>(), any::<u8>()).prop_map(|(d, n, first, surf)| {
+            let mut v = Vec::new();
+            for i in 0..n {
+                v.push(Step { op: Op::Open { d, name: NameSel::Fresh(first.wrapping_add(i)), mode: 3 }, surf, tick: 3 });
+                v.push(Step { op: Op::Close { f: 0xFFFF, drop_only: false }, surf, tick: 1 });
+                if i % 8 == 7 {
+                    v.push(Step { op: Op::List { d }, surf, tick: 1 });
+                }
+            }
+            v.push(Step { op: Op::List { d }, surf, tick: 1 });
+            v.push(Step { op: Op::Find { d, name: NameSel::Fresh(first) }, surf, tick: 1 });
+            v
+        });
+        prop_oneof![
+            4 => plain,
+            1 => (prop::collection::vec(ops::step_strategy(&cfg.profile), cfg.steps.0..cfg.steps.1.min(16)), burst).prop_map(|(mut a, b)| { a.extend(b); a }),
+        ]
+        .boxed()
+    } else {
+        plain.boxed()
+    };
     let lim = if cfg.all_cfgs { (0u8..12).boxed() } else { prop_oneof![6 => Just(0u8), 1 => Just(4u8), 1 => Just(11u8), 1 => Just(6u8)].boxed() };
     (lim, prop_oneof![3 => (0u32..100_000), 1 => (u32::MAX - 60..=u32::MAX)], any::<u32>(), gen::disk_strategy(cfg.bias, cfg.multi), steps)
         .prop_map(|(cfg, id_offset, clock0, disk, steps)| Case { cfg, id_offset, clock0, disk, steps })
@@ -686,6 +713,14 @@ pub fn run_case(cfg: &FsxCfg, case: &Case, acc: &mut Acc, known: &[KnownFinding]
     }
     if s.space_errors > 0 {
         acc.class("hist:space-error");
+    }
+    let fresh = case.steps.iter().filter(|st| matches!(&st.op, Op::Open { name: NameSel::Fresh(_), .. })).count();
+    if fresh > 0 {
+        acc.class("hist:create-burst");
+        let made = it.nodes.iter().filter(|n| n.alive && n.name.starts_with(b"F") && n.name[8..11] == *b"TMP").count();
+        if made >= 17 {
+            acc.class("hist:create-burst-17-or-more-created");
+        }
     }
     let nt = nontrivial(prop, &it, &nt_flags);
     if nt {
